@@ -606,6 +606,44 @@ func sioRunHistory(h *sioCase, dir string, twins bool) {
 		obs.Store = store
 		h.Steps = append(h.Steps, obs)
 	}
+	// at the end of every history: a crew operation whose specification cannot be compiled, for an existing machine and
+	// for a new id, must leave no trace - neither in the crew nor in what the crew reports (D57: the change was recorded
+	// before the specification was resolved)
+	if status, detail := sioGuarded(func() error { return sioBrokenSpecProbe(ctx, c) }); status != "ok" {
+		h.Status, h.Detail = status, "after the history: "+detail
+	}
+}
+
+func sioBrokenSpecProbe(ctx context.Context, c *sio.Crew) error {
+	before, _ := sioSnapshot(c)
+	broken := map[string]interface{}{"inline": map[string]interface{}{"name": "broken", "nodes": map[string]interface{}{
+		"start": map[string]interface{}{"action": map[string]interface{}{"interpreter": "ecmascript", "source": "return (((;"}}}}}
+	ids := []string{"zz-new-machine"}
+	for mid := range before {
+		ids = append(ids, mid)
+		break
+	}
+	for _, mid := range ids {
+		r, err := c.ProcessMsg(ctx, map[string]interface{}{"to": "captain", "update": map[string]interface{}{
+			mid: map[string]interface{}{"spec": broken, "state": map[string]interface{}{"node": "elsewhere", "bs": map[string]interface{}{"probe": true}}}}})
+		if err != nil {
+			return fmt.Errorf("ProcessMsg with an uncompilable specification for %q: %v", mid, err)
+		}
+		if r != nil {
+			// (changes made earlier through the API and not yet reported may surface here; none may carry the probe)
+			for id, ch := range r.Changed {
+				js, _ := json.Marshal(ch)
+				if strings.Contains(string(js), "elsewhere") || strings.Contains(string(js), "broken") {
+					return fmt.Errorf("an operation that failed (uncompilable specification for %q) is reported as a change of %q: %s", mid, id, js)
+				}
+			}
+		}
+		after, _ := sioSnapshot(c)
+		if canon(after) != canon(before) {
+			return fmt.Errorf("an operation that failed (uncompilable specification for %q) changed the crew: %s -> %s", mid, canon(before), canon(after))
+		}
+	}
+	return nil
 }
 
 // ---------- Gallina rendering ----------
